@@ -81,6 +81,13 @@ CLAIMS["C11"] = {
     "technique": "static analysis: registry/dispatch exhaustiveness across three modules, signature conformance of resolved calls, argument-name cross-check, sibling agreement",
 }
 
+CLAIMS["C13"] = {
+    "decides": "the only value-returning exits of curve_to_quadratic, curves_to_quadratic, cubic_approx_spline, quadratic_to_curves/spline_to_curves are guarded by a successful acceptance test evaluated with the caller's tolerance (never rebound, no arithmetic), rejection returns None / skips the candidate, exhaustion raises ApproxNotFoundError, a rejection in the multi-curve search re-validates every curve with the new n, each curve is tested against the tolerance of the same index, returned splines start/end at the cubic's end points; parallel glyph/tolerance lists are re-indexed alike; no duplicated or one-coordinate-only conjunct in pen/curve code.",
+    "design_ref": "DESIGN.md §3.6 F25, §4 C13",
+    "note": "Decides 'nothing is returned unaccepted', not 'accepted means within tolerance' (the error bound itself is arithmetic). Trusted: CFG/guard extraction.",
+    "technique": "static analysis: CFG dominance of acceptance guards over returns, provenance of the tolerance argument, parallel-index agreement, duplicate-operand lint",
+}
+
 _PENDING = "check not built yet in this round (planned structural clauses in DESIGN.md §4); not claimed until its check exists"
 NOT_APPLICABLE = {
     "C05": "numeric equality of outlines/advances with independent rasterisers at every location: runtime values only; no structural clause that is a necessary condition and survives refactoring (DESIGN §4 C05)",
@@ -88,5 +95,5 @@ NOT_APPLICABLE = {
     "C14": "geometric equality through pen adapters over all call sequences: adapters may legally buffer/merge/re-emit calls, so no forwarding-shape rule is both necessary and refactoring-stable (DESIGN §4 C14)",
     "C18": "rendering equivalence of merged fonts: only weak structural facts (first-writer-wins cmap guard) exist, not enough for a necessary-condition clause (DESIGN §4 C18)",
 }
-for _p in ("C10", "C12", "C13", "C19"):
+for _p in ("C10", "C12", "C19"):
     NOT_APPLICABLE[_p] = _PENDING
